@@ -98,7 +98,7 @@ func (f *Formatter) Format(args []string) (*FormatterResult, error) {
 		if f.Opts.InPlace {
 			if fileResult.Changed {
 				// G306: Use 0600 for better security (owner read/write only)
-				err = os.WriteFile(file, []byte(fileResult.Formatted), 0600)
+				err = writeFileAtomic(file, []byte(fileResult.Formatted), 0600)
 				if err != nil {
 					fmt.Fprintf(f.Err, "❌ Failed to write %s: %v\n", file, err)
 					result.FailedFiles++
